@@ -59,7 +59,21 @@ def install_repo_contracts(ex, clock=None):
         ex.clock = clock
 
     def kdf16(ex_, p, m, a, func, fr):
-        return one(Arr(fresh_bytes('kdf16'), 'u8', 16))
+        labels = []
+        try:
+            lst = ex_.deref_all(p.st, a[1]) if isinstance(a[1], Ref) else a[1]
+            for it in getattr(lst, 'items', ()):
+                la, lo, ll = ex_.bytes_view(p.st, it)
+                n = z3.simplify(ll)
+                if z3.is_bv_value(n) and n.as_long() <= 40 and 'K(' in str(la)[:400] + 'K(':
+                    bs = [z3.simplify(z3.Select(la, lo + bv64(i))) for i in range(n.as_long())]
+                    labels.append(''.join(chr(b.as_long()) if z3.is_bv_value(b) else '?' for b in bs))
+                else:
+                    labels.append(crypto.prov(ex_, p.st, it))
+        except Exception:
+            labels.append('?')
+        arr = crypto.tag_prov(fresh_bytes('kdf16'), 'kdf16(%s;%s)' % (crypto.prov(ex_, p.st, a[0]), '|'.join(labels)))
+        return one(Arr(arr, 'u8', 16))
 
     def kdfn(ex_, p, m, a, func, fr):
         n = int(m.group(1)) if m.group(1).isdigit() else ex_.const_generics[m.group(1)]
@@ -91,7 +105,7 @@ def install_repo_contracts(ex, clock=None):
     ex.overrides.append((re.compile(r'(ClientSession|ServerSession)::init$'), session_init))
 
     def chacha_key(ex_, p, m, a, func, fr):
-        return one(Arr(fresh_bytes('chachakey'), 'u8', 32))
+        return one(Arr(crypto.tag_prov(fresh_bytes('chachakey'), 'chacha(%s)' % crypto.prov(ex_, p.st, a[0])), 'u8', 32))
     ex.overrides.append((re.compile(r'(?:^|::)generate_chacha20_poly1305_key$'), chacha_key))
 
     def hex_decode(ex_, p, m, a, func, fr):
